@@ -290,6 +290,8 @@ def name_return(toks, hits):
                 depth += 1 if t.text != '<' else 0
             elif t.text in ')]':
                 depth -= 1
+        if t.kind == 'id' and t.text == 'where' and depth == 0:
+            break       # arrows in a where clause belong to Fn bounds, not to the function
         if t.text == '-' and j + 1 < body and toks[j + 1].text == '>' and toks[j + 1].gap == '' and depth == 0:
             arrow = j
     if arrow is None:
